@@ -577,6 +577,18 @@ where
                         {
                             // the listeners' names are unknown here
                             has_dynamic_keys = true;
+                            // keep source order: attributes seen so far come first
+                            if !props.is_empty() {
+                                let props = mem::take(&mut props);
+                                merge_args.push(Expr::Object(ObjectLit {
+                                    span: DUMMY_SP,
+                                    props: if self.options.merge_props {
+                                        util::dedupe_props(props)
+                                    } else {
+                                        props
+                                    },
+                                }));
+                            }
                             merge_args.push(Expr::Call(CallExpr {
                                 span: DUMMY_SP,
                                 callee: Callee::Expr(Box::new(Expr::Ident(
